@@ -111,6 +111,8 @@ func buildWitnesses() []witness {
 	regress = []witness{
 		{"foreign-function-then-notify", "", append(append([]hx.Zs{}, discovered...), in(validMessage(r, kNotifyForeignFunction, 1, 20)),
 			in(validMessage(r, kNotifyLimits, 1, 21)), in(validMessage(r, kReplyForeignFunction, 1, 22)), in(validMessage(r, kReplyLimits, 1, 23)), probe)},
+		{"failed-notify-with-foreign-selector", "", append(append([]hx.Zs{}, discovered...), in(validMessage(r, kNotifyFailedForeignSelector, 1, 30)),
+			in(validMessage(r, kNotifyLimitsForeignSelector, 1, 31)), probe)},
 		{"reply-with-entity-entry-without-description", "", []hx.Zs{conn, in(discEdit(func(d map[string]any) {
 			ei := d["entityInformation"].([]any)
 			d["entityInformation"] = []any{ei[0], map[string]any{}, ei[1]}
